@@ -512,11 +512,15 @@ def rule_R2(ctx: Ctx, mgrs):
                 nm = loop.target.id
                 for c in ast.walk(loop):
                     if isinstance(c, ast.Call) and is_name(c.func, "setattr") and len(c.args) == 3 and is_name(c.args[1], nm):
-                        v = c.args[2]
+                        from ..common import inline_locals
+
+                        v = inline_locals(u.node, c.args[2])  # dispatched = cls.dispatch_backend_method(...); setattr(cls, name, staticmethod(dispatched))
                         if isinstance(v, ast.Call) and is_name(v.func, "staticmethod") and v.args:
                             v = v.args[0]
-                        if isinstance(v, ast.Call) and isinstance(v.func, ast.Attribute) and v.func.attr == "dispatch_backend_method" and v.args and is_name(v.args[0], nm):
-                            ok = True
+                        if isinstance(v, ast.Call):
+                            first = v.args[0] if v.args else next((k.value for k in v.keywords if k.arg == "name"), None)
+                            if isinstance(v.func, ast.Attribute) and v.func.attr == "dispatch_backend_method" and is_name(first, nm):
+                                ok = True
         res.instance("R2", f"{u.qname}: installs wrapper for every _functions name", sample={"ok": ok})
         if not ok:
             ctx.finding("R2", u, u.node, "use_dynamic_dispatch does not install dispatch_backend_method(name, ...) for every name of _functions", construct=f"def {u.name} in {mgr.name}")
